@@ -91,7 +91,7 @@ LoopExit(b, lab) ==
 (* Semantics.  P is the program (function table); it is a parameter of every   *)
 (* operator because closures and calls need the function bodies.               *)
 RECURSIVE EvalE(_, _, _, _), EvalArgs(_, _, _, _), ExecS(_, _, _, _, _), ExecB(_, _, _, _, _),
-          CallFn(_, _, _, _), CallClo(_, _, _, _), RunBody(_, _, _, _, _), RunDefers(_, _, _),
+          CallFn(_, _, _, _), CallClo(_, _, _, _), CallCloD(_, _, _, _, _, _), RunBody(_, _, _, _, _), RunDefers(_, _, _),
           Loop3(_, _, _, _, _, _), Cases(_, _, _, _, _, _, _), CallAll(_, _, _, _)
 
 \* expression evaluation: [v, st]
@@ -219,7 +219,7 @@ RunDefers(P, ds, st) ==
              ELSE IF d.k = "method"      \* t.bump(v) with the receiver's address fixed at the defer statement
              THEN LET n == st1.cells[d.base] + d.vs[1] IN Chk(Store(st1, d.base, n), n)
              ELSE IF d.k = "clo"         \* c() with the function value fixed at the defer statement
-             THEN CallClo(P, d.c, <<>>, st1).st
+             THEN CallCloD(P, d.c, <<>>, st1, panicking, saved).st
              ELSE IF d.k = "relp"        \* relp(p) : the POINTER is fixed at the defer statement, the pointee is read now
              THEN Emit1(st1, <<"d", st1.cells[d.ref.ptr]>>)
              ELSE IF d.k = "relq"
@@ -260,12 +260,15 @@ CallFn(P, f, args, st) ==
     IN [vs |-> <<b.st.cells[pc + 1], b.st.cells[pc + 2]>>, st |-> b.st]
 
 \* call of a function literal value: its own environment, one hidden result cell
-CallClo(P, c, args, st) ==
+\* direct: the literal is the function a deferred call invoked while panicking (defer c()): a
+\* recover() in ITS body stops the panic pv; called in any other way it is an ordinary function
+CallCloD(P, c, args, st, direct, pv) ==
     LET rc  == NewId(st)
         st1 == IF c.par THEN Alloc(Alloc(st, 0), args[1]) ELSE Alloc(st, 0)
         env == IF c.par THEN Bind(Bind(c.env, "$ret", rc), "a", rc + 1) ELSE Bind(c.env, "$ret", rc)
-        b   == RunBody(P, c.body, env, st1, [direct |-> FALSE, ret |-> "$ret", pv |-> 0])
+        b   == RunBody(P, c.body, env, st1, [direct |-> direct, ret |-> "$ret", pv |-> pv])
     IN [vs |-> <<b.st.cells[rc]>>, st |-> b.st]
+CallClo(P, c, args, st) == CallCloD(P, c, args, st, FALSE, 0)
 
 \* call every closure of a sequence, printing each result
 CallAll(P, fs, i, st) ==
@@ -483,11 +486,18 @@ ExecS(P, s, env, st0, ctx) ==
                  IF s.setr THEN R(env, Store(st1, env["r"], st1.cells[env["r"]] + 100)) ELSE R(env, st1)
             ELSE R(env, Emit1(st, <<"norec">>))
       [] s.k = "asgidx" ->    \* x, arr[x] = e1, e2  |  arr[x], x = e2, e1 : the index is evaluated before x changes
+                              \* x, m[x] = e1, e2  |  m[x], x = e2, e1  (s.s names a map variable): the key is evaluated first too
             LET i  == st.cells[env[s.x]]
                 a  == EvalE(P, s.a, env, st)
                 b  == EvalE(P, s.b, env, a.st)
                 c  == IF i % 2 = 0 THEN Env0.a0 ELSE Env0.a1
-            IN R(env, IF Ok(b.st) THEN Store(Store(b.st, env[s.x], a.v), c, b.v) ELSE b.st)
+            IN IF s.s = "" THEN R(env, IF Ok(b.st) THEN Store(Store(b.st, env[s.x], a.v), c, b.v) ELSE b.st)
+               ELSE LET mv == b.st.cells[env[s.s]] IN
+                    IF ~Ok(b.st) THEN R(env, b.st)
+                    \* s.bare: the key is written m[x] (not reduced modulo 4): only for x in 0..3
+                    ELSE IF s.bare /\ (i < 0 \/ i > 3) THEN R(env, [b.st EXCEPT !.status = "oor"])
+                    ELSE IF mv.mp = 0 THEN R(env, Panic(IF s.form = "xfirst" THEN Store(b.st, env[s.x], a.v) ELSE b.st, "fault"))
+                    ELSE R(env, MapPut(Store(b.st, env[s.x], a.v), mv, i % 4, b.v))
       [] s.k = "slswap" ->    \* s[i], s[j] = s[j], s[i]
             LET bc == st.cells[env[s.s]].back
                 b  == st.cells[bc]
